@@ -47,6 +47,9 @@ def prepare_work():
     for st in glob.glob(os.path.join(WORK, "ocaml", "*", ".stamp")):
         os.remove(st)
     os.makedirs(os.path.join(WORK, "coq", "Generated"), exist_ok=True)
+    lg = os.path.join(VERIF, "coq", "Generated", ".lastgood")
+    if os.path.isdir(lg):
+        subprocess.run(["rsync", "-a", lg + "/", os.path.join(WORK, "coq", "Generated", ".lastgood") + "/"], check=True)
 NPROC = int(os.environ.get("VERIF_JOBS", "16"))
 
 FORBIDDEN = re.compile(
@@ -528,12 +531,19 @@ def main(argv=None):
         tr = gen.regenerate()          # private work directory: generate everything from VERIF_REPO
     else:
         tr = gen.regenerate(only=needed) if needed else {}
+    translator_failed = []
     for out in needed:
         r = tr.get(out)
         if r is None:
             ctx.oblige(f"translator:{out}", "translator", False, "no translator module produces this file")
+            translator_failed.append(out)
         else:
             ctx.oblige(f"translator:{out}", "translator", r["ok"], r.get("error", ""))
+            if not r["ok"]:
+                translator_failed.append(out)
+                if r.get("stale_restored"):
+                    ctx.notes.append(f"{out}: translation failed; the last good generated text is used ONLY to build the "
+                                     "model runner for the counterexample search; no theorem is counted as checked")
 
     # 2. Coq: closure build, property file, assumptions, gate
     if not a.no_coq:
@@ -562,6 +572,10 @@ def main(argv=None):
         res = dict(results)
         axioms_seen = {}
         for t in thms:
+            if translator_failed:
+                ctx.oblige(f"theorem:{t}", "proof", False,
+                           f"not checked: the source no longer translates ({', '.join(translator_failed)})")
+                continue
             if t not in res:
                 ctx.oblige(f"theorem:{t}", "proof", False, "not checked (build failed)")
                 continue
